@@ -79,11 +79,24 @@ func scenarioC13E(x *runner.X) {
 		x.Failf("harness", "file set", "%v", err)
 		return
 	}
-	roles := []string{"car", "car", "car", "cid_to_offset_and_size", "slot_to_cid", "sig_to_cid", "sig_exists", "slot_to_blocktime"}
+	roles := []string{"car", "car", "car", "cid_to_offset_and_size", "slot_to_cid", "sig_to_cid", "sig_exists", "slot_to_blocktime", "gsfa_linked_log"}
 	role := roles[t.Intn(len(roles))]
 	var full []byte
+	gsfaFile := ""
 	if role == "car" {
 		full = w.CAR
+	} else if role == "gsfa_linked_log" {
+		m, _ := filepath.Glob(filepath.Join(set.files["gsfa"], "*linked-log*"))
+		if len(m) != 1 {
+			x.Failf("harness", "linked log file of the gsfa index not found", "%v", m)
+			return
+		}
+		gsfaFile = m[0]
+		full, err = os.ReadFile(gsfaFile)
+		if err != nil || len(full) == 0 {
+			x.Failf("harness", "read linked log", "%v", err)
+			return
+		}
 	} else {
 		full, err = os.ReadFile(set.files[role])
 		if err != nil {
@@ -124,6 +137,19 @@ func scenarioC13E(x *runner.X) {
 	if role == "car" {
 		cp.car = filepath.Join(dir, "epoch.car")
 		os.WriteFile(cp.car, full[:cut], 0o644)
+	} else if role == "gsfa_linked_log" {
+		// a copy of the address-index directory with its linked log cut short
+		gd := filepath.Join(dir, "gsfa.indexdir")
+		os.MkdirAll(gd, 0o755)
+		ents, _ := os.ReadDir(set.files["gsfa"])
+		for _, e := range ents {
+			b, _ := os.ReadFile(filepath.Join(set.files["gsfa"], e.Name()))
+			if e.Name() == filepath.Base(gsfaFile) {
+				b = full[:cut]
+			}
+			os.WriteFile(filepath.Join(gd, e.Name()), b, 0o644)
+		}
+		cp.files["gsfa"] = gd
 	} else {
 		cp.files[role] = filepath.Join(dir, "cut.index")
 		os.WriteFile(cp.files[role], full[:cut], 0o644)
@@ -143,7 +169,11 @@ func scenarioC13E(x *runner.X) {
 	for i := 0; i < len(w.Txs); i += step {
 		qs = append(qs, c13answer{method: "getTransaction", params: []any{w.Txs[i].Sig().String(), map[string]any{"encoding": "json", "maxSupportedTransactionVersion": 0}}})
 	}
-	for i := 0; i < 2 && i < len(w.Addresses); i++ {
+	nAddrQ := 2
+	if role == "gsfa_linked_log" {
+		nAddrQ = 8
+	}
+	for i := 0; i < nAddrQ && i < len(w.Addresses); i++ {
 		qs = append(qs, c13answer{method: "getSignaturesForAddress", params: []any{w.Addresses[(i*7)%len(w.Addresses)].String()}})
 	}
 	rounds := 2 + t.Intn(2)
